@@ -91,7 +91,7 @@ BLK_STUBS = ENC_STUBS + ['cstring__lit', 'BlockTable_[A-Za-z]+__size', 'BlockTab
 EXP_SETUP = '  static struct CdnsExporter obj;\n  __CPROVER_assume(' + (INV2 + ' && ' + BOUNDS).replace('$this', '(&obj)') + ');\n'
 UNITS.append(Unit('exp.write_block', (EXP + 'write_block', 'std::size_t ()'), contract=WB_C, prelude=P, pre_c=PRE2,
                   defines=DEF + ['ENC_MAY_FAIL'], extern_records=EXT, stubs=BLK_STUBS, inline=BLK_INL, replace=['exp.write_block_b'],
-                  ghost=GH_W, setup=EXP_SETUP, args=['&obj'], props=['C02', 'C10', 'C12', 'C13', 'C16'], timeout=900, split=True,
+                  ghost=GH_W, setup=EXP_SETUP, args=['&obj'], props=['C02', 'C10', 'C12', 'C13', 'C16', 'C04'], timeout=900, split=True,
                   post='  if (g_exc != 0) { CANARY("output failure reachable"); }',
                   note='write, then clear, then re-arm with the active parameters; on an output failure the buffered records are untouched'))
 
